@@ -522,6 +522,11 @@ func c36BuildProg(a [][]byte, overlapB []byte) *Case {
 						}
 						key := "header-differs"
 						switch {
+						case k == "Content-Length" && flush && len(a) > 0 && len(b) == 0:
+							// the adaptor streams a flushed answer with chunked framing and sends no Content-Length
+							key = "content-length-dropped-when-streaming"
+						case k == "Content-Length":
+							key = "handler-content-length-differs"
 						case late:
 							key = "header-change-after-status-fixed-is-sent"
 						case len(a) > 1 && len(b) < len(a):
@@ -849,7 +854,7 @@ func init() {
 	Register(&Prop{
 		ID: "C36",
 		Rule: "prog: handler programs of 0..9 ops over WriteHeader(code in {100,102,103,199,101,200,201,204,299,301,304,404,500,999}), Header().Add/Set/Del over 7 names " +
-			"(canonical and lower-case spellings, incl. Set-Cookie/Content-Type/Cache-Control) x 5 values, Write(0..40 bytes text or html), Write of generated bodies of 0/1/511/513/4095/4096/4097/8000/20000/32767/32768/32769/102400 bytes (one Write, split Writes, before/after Flush), Flush; each run under GET/HEAD/POST x HTTP/1.0|1.1 " +
+			"(canonical and lower-case spellings, incl. Set-Cookie/Content-Type/Cache-Control) x 5 values, Write(0..40 bytes text or html), handler-set Content-Length (Set/Add, both spellings; GET/POST with exactly that many bytes, HEAD with no body or that body; without Flush, Flush after and before the body), Write of generated bodies of 0/1/511/513/4095/4096/4097/8000/20000/32767/32768/32769/102400 bytes (one Write, split Writes, before/after Flush), Flush; each run under GET/HEAD/POST x HTTP/1.0|1.1 " +
 			"against net/http's server AND fasthttp+adaptor with the same http.Handler; structured shapes (1xx then final, header op after WriteHeader/Write/Flush, repeated Add) are generated on purpose; " +
 			"thorough adds all programs of <=4 ops over a 9-op alphabet. overlap: the same programs served by the adaptor wrapped in a fasthttp middleware that, after the adaptor handler returned and before the response is written, serves 6 other adaptor requests (bodies of 100..40000 different bytes) to completion — the first response must still carry what its handler wrote. req: grammar-built requests (7 methods; origin-form, absolute-form and '*' targets incl. literal '#', leading '//', '?' after '#', %23/%2F/%3f, ':' '@' ';' — fixed shapes plus random strings over the RFC 3986 delimiters; URL compared field by field: scheme/opaque/user/host/path/rawpath/rawquery/fragment, HTTP/1.0|1.1, 0..6 fields with repeated and mixed-case names, " +
 			"Content-Length or chunked bodies) parsed by http.ReadRequest and by fasthttp+ConvertRequest. non-trivial = program with >=2 ops incl. a WriteHeader or header op / request accepted by both with >=1 field; distinct = distinct input",
@@ -859,7 +864,8 @@ func init() {
 		Assumptions: []string{
 			"net/http's server (the toolchain's version) is the reference; Spec.NetHTTPWriter is validated against it on every generated program (sampling, not proof)",
 			"compared: final status, values of every header name the handler touched (per name, in order), body (not for HEAD); sniffed Content-Type, Date, Content-Length/Transfer-Encoding/Connection are excluded unless set by the handler; Content-Type on bodiless statuses (1xx/204/304) excluded",
-			"trailers, Hijack, panicking handlers, invalid status codes (<100, >999) and handler-set Content-Length/Transfer-Encoding/Connection/Date/Trailer are outside the generated programs",
+			"handler-set Content-Length is generated only where it is legitimate: equal to the bytes written (GET/POST), or the length of the corresponding GET answer for HEAD (with no body or exactly that body); a declared length that contradicts the body is a handler bug with server-specific damage control and is not generated",
+			"trailers, Hijack, panicking handlers, invalid status codes (<100, >999) and handler-set Transfer-Encoding/Connection/Date/Trailer are outside the generated programs",
 			"requests rejected by either parser, and absolute-form targets with an empty host (invalid, RFC 9110 4.2.1), are not compared (acceptance is C01/C09); the URL is compared field by field (scheme, opaque, userinfo, host, path, rawpath, rawquery, fragment); ContentLength/TransferEncoding/RemoteAddr/TLS fields are not part of the statement",
 			"overlap scenario: the other requests run in the middleware's goroutine on fresh RequestCtx values; whether they receive the first request's recycled buffer depends on sync.Pool's per-P caches (likely, not certain) — the regenerated fact buffered_body_is_copied pins the copy on the proof side",
 			"in-memory listener instead of TCP",
@@ -954,6 +960,34 @@ func c36Gen(r *Rand, tier string, emit func(string, ...[]byte)) {
 			for _, bs := range []int{100, 5000, 40000} {
 				emitLater = append(emitLater, append([][]byte{m, B("1"), N(bs)}, sh...))
 			}
+		}
+	}
+	// handler-set Content-Length: a handler may declare the length itself. For GET/POST the declared length is the exact
+	// number of bytes it writes (anything else is a handler bug with server-specific damage control); for HEAD it is the
+	// length the GET answer would have, with no body or with exactly that body. Set or Add, either spelling, before an
+	// explicit status, with the body in one or two Writes, without Flush and with a Flush after / before the body.
+	clSizes := []int{0, 1, 5, 1234, 4096, 40000}
+	for _, n := range clSizes {
+		pat := B(r.Pick(pats))
+		name := B(r.Pick([]string{"Content-Length", "content-length"}))
+		setOp := []byte{"SA"[r.Intn(2)]}
+		cl := [][]byte{setOp, name, N(n)}
+		with := func(ops ...[]byte) [][]byte { return append(append([][]byte(nil), cl...), ops...) }
+		bodyShapes := [][][]byte{
+			with([]byte{'R'}, pat, N(n)),
+			with([]byte{'W'}, B("200"), nil, []byte{'R'}, pat, N(n)),
+			with([]byte{'A'}, B("X-A"), B("1"), []byte{'R'}, pat, N(n/2), []byte{'R'}, B("Zy"), N(n-n/2)),
+			with([]byte{'R'}, pat, N(n), []byte{'F'}, nil, nil),
+			with([]byte{'F'}, nil, nil, []byte{'R'}, pat, N(n)),
+		}
+		for _, sh := range bodyShapes {
+			for _, m := range []string{"GET", "POST", "HEAD"} {
+				progs = append(progs, append([][]byte{B(m), B(r.Pick([]string{"1", "1", "0"}))}, sh...))
+			}
+		}
+		// HEAD answers that only declare the length
+		for _, sh := range [][][]byte{with(), with([]byte{'W'}, B("200"), nil), with([]byte{'A'}, B("X-A"), B("1")), with([]byte{'W'}, B("404"), nil)} {
+			progs = append(progs, append([][]byte{B("HEAD"), B(r.Pick([]string{"1", "0"}))}, sh...))
 		}
 	}
 	// random programs, too, are run in the overlap scenario
